@@ -35,6 +35,15 @@ CLAIMED = {
             "MayOmit is my transcription of the 'optional tags' section (no network); the tfoot-before-tbody disjunct is ASSUMED "
             "to follow the code. The parse-equivalence clause for conforming documents is covered by C07. Walker conventions "
             "assumed (balanced streams, leading whitespace split into SpaceCharacters).", "5/C13"),
+    "C20": ("model_checking",
+            "TLA+ spec XmlName (per-character coercion machines; legality = what expat accepts, generated at setup); TLC "
+            "exhaustive over short names/comments/pubids; spec->code replay (fresh and shared filter instance); code->spec "
+            "validation of the complete BMP x {first, non-first} table and tokenizer-emitted names (Trace_XmlName)",
+            "TLC proves legality, identity on legal colon-free names and reversibility for the intended machine on all "
+            "strings within the bound; the real InfosetFilter is bound by exact equality on every explored string and on every "
+            "BMP code point in both positions, with legality judged by expat-derived tables.",
+            "Trusted: expat as the reference XML parser (XML 1.0 4th edition names), TLC. lxml is not installed, so the "
+            "etree_lxml builder itself is out of reach; the filter is exercised directly.", "5/C20"),
 }
 
 NOT_YET = "check not built yet in this round (planned, see DESIGN.md section 5)"
